@@ -115,6 +115,16 @@ def storage_jobs(Job, cfg=CFG_NDEBUG, tier="quick"):
               replace=["SurfaceSelector_opposite_surface", "SurfaceSelector_corresponding_side_of_next_device", "SurfaceSelector_prev"])]
 
 
+FREE_GROUP = ["sector_count", "CatalogEntry_metadata_byte", "CatalogEntry_metadata_word", "CatalogEntry_file_length",
+              "CatalogEntry_start_sector", "free_compute"]
+
+
+def free_jobs(Job, cfg=CFG_NDEBUG, tier="quick"):
+    return [Job("D_free_compute_%s" % cfg[0], "harness/dfs_free.c", "h_free", enforce=["free_compute"],
+                replace=["CatalogEntry_file_length", "CatalogEntry_start_sector"], loops=True,
+                defines=list(cfg[1]), extract=ext(FREE_GROUP), tier=tier, cover=True, solver="cadical")]
+
+
 DFS_TRUSTED = [
     "engine/cxx2c.py: the verified text is the function body extracted from /repo on every run; rules fired and SHA-256 of the source range are in coverage.jobs[].extracted",
     "models/dfs_model.h: DataAccess::read_block as a deterministic partial function with a call log; std::function visitors as monitored calls; "
